@@ -174,6 +174,23 @@ def w_ulam(ctx, rng, idx):
         states[int(rng.choice([0, k - 1]))] = int(rng.integers(256, 421))
     n = int(np.prod(states))
     sim = int(rng.integers(1, 6))
+    if not fine and idx % 25 == 7:
+        # many simulations per box on a small grid, every box fully sampled: tables with a round number of columns (2^15, 2^16, 2^17, 3 * 2^16
+        # - what "2048 simulations on 32 boxes" gives), the sizes at which block-wise counting code has its boundaries
+        states = [[2, 2], [4, 2], [2, 8], [4, 4], [8, 4], [8, 8]][int(rng.integers(0, 6))] if k == 2 else [[2, 2, 1], [2, 2, 2], [4, 2, 2], [2, 4, 4], [4, 4, 4]][int(rng.integers(0, 5))]
+        n = int(np.prod(states))
+        total = [2 ** 15, 2 ** 16, 2 ** 16, 2 ** 17, 3 * 2 ** 16][int(rng.integers(0, 5))]
+        sim = total // n
+        src = np.repeat(np.array(list(np.ndindex(*states)), dtype=int), sim, axis=0)  # (n * sim, k)
+        # transitions concentrated on few targets per box (ranks stay small): each box jumps to one of three random boxes
+        tg = np.array([[int(rng.integers(0, s_)) for s_ in states] for _ in range(3 * n)], dtype=int).reshape(n, 3, k)
+        choice = rng.integers(0, 3, size=src.shape[0])
+        dst = tg[np.repeat(np.arange(n), sim), choice]
+        tr = np.concatenate([src + 1, dst + 1], axis=1).T
+        tr = tr[:, rng.permutation(tr.shape[1])].astype([int, np.uint8, np.int32][int(rng.integers(0, 3))])
+        ctx.describe({'op': 'ulam_%dd' % k, 'states': states, 'simulations': sim, 'transitions': int(tr.shape[1]), 'kind': 'round number of table columns'})
+        call('ulam.ulam_%dd' % k, ulam.ulam_2d if k == 2 else ulam.ulam_3d, tr, states, sim, prop=P, tags=['round_number_of_columns'])
+        return
     cols = []
     boxes = list(np.ndindex(*states))
     if fine:
